@@ -250,6 +250,133 @@ Proof.
   fold off in K. rewrite K, obj_bytes_split, B. rewrite <- !app_assoc, endobj_tail_app. reflexivity.
 Qed.
 
+(** * Part 4: the whole indirect object — header tokens included *)
+
+(** C17's [dec] (Rust Display, fuel 40) and C09's [dec] (fuel = bit size) print the same digits *)
+Lemma dec_aux_S : forall f n acc, dec_aux (S f) n acc =
+  if n / 10 =? 0 then (48 + n mod 10) :: acc else dec_aux f (n / 10) ((48 + n mod 10) :: acc).
+Proof. reflexivity. Qed.
+Lemma dec_f_S : forall f n acc, dec_f (S f) n acc =
+  if n <? 10 then (48 + n) :: acc else dec_f f (n / 10) ((48 + n mod 10) :: acc).
+Proof. reflexivity. Qed.
+
+Lemma dec_aux_dec_f : forall f1 f2 n acc, n < pow10 (S f1) -> n < pow10 (S f2) ->
+  dec_aux (S f1) n acc = dec_f (S f2) n acc.
+Proof.
+  induction f1 as [|f1 IH]; intros f2 n acc H1 H2; rewrite dec_aux_S, dec_f_S;
+    destruct (n <? 10) eqn:E.
+  - apply N.ltb_lt in E. rewrite N.div_small, N.mod_small by lia. reflexivity.
+  - apply N.ltb_ge in E. change (pow10 1) with 10 in H1. lia.
+  - apply N.ltb_lt in E. rewrite N.div_small, N.mod_small by lia. reflexivity.
+  - apply N.ltb_ge in E.
+    assert (Q : n / 10 =? 0 = false).
+    { apply N.eqb_neq. intro Z. apply N.div_small_iff in Z; lia. }
+    rewrite Q. destruct f2 as [|f2]; [change (pow10 1) with 10 in H2; lia|].
+    apply IH; apply N.div_lt_upper_bound; try lia; assumption.
+Qed.
+
+Lemma pow2_le_pow10 : forall k, 2 ^ N.of_nat k <= pow10 k.
+Proof.
+  induction k as [|k IH]; [cbn; lia|].
+  rewrite Nnat.Nat2N.inj_succ, N.pow_succ_r'. change (pow10 (S k)) with (10 * pow10 k). lia.
+Qed.
+
+Lemma dec_same : forall n, n < pow10 40 -> dec n = C09.Model.dec n.
+Proof.
+  intros n H. unfold dec, C09.Model.dec. apply dec_aux_dec_f; [exact H|].
+  pose proof (N.size_gt n) as G. pose proof (pow2_le_pow10 (N.to_nat (N.size n))) as P.
+  rewrite Nnat.N2Nat.id in P. change (pow10 (S (N.to_nat (N.size n)))) with (10 * pow10 (N.to_nat (N.size n))). lia.
+Qed.
+
+Lemma dec_is_dec_z : forall n, n <= 4294967295 -> dec n = dec_z (Z.of_N n).
+Proof.
+  intros n H. rewrite dec_same.
+  - destruct n; reflexivity.
+  - eapply N.le_lt_trans; [exact H|]. vm_compute. reflexivity.
+Qed.
+
+(** the tokens of one written object: N G obj <tokens of v> endobj *)
+Lemma obj_bytes_lexes : forall o v t,
+  fst (fst o) <= 4294967295 -> snd (fst o) <= 65535 -> wf_incr v = true ->
+  Lexes (header_of o ++ ser_incr v ++ endobj_tail t)
+        (TInt (Z.of_N (fst (fst o))) :: TInt (Z.of_N (snd (fst o))) :: TKw w_obj :: toks v ++ [TKw w_endobj])
+        (10 :: t).
+Proof.
+  intros [[n g] body] v t Hn Hg W. cbn [fst snd] in *. unfold header_of. cbn [fst snd].
+  rewrite (dec_is_dec_z n Hn), (dec_is_dec_z g) by lia.
+  assert (In_ : int_ok (Z.of_N n) = true) by (unfold int_ok, i64_min, i64_max; lia).
+  assert (Ig : int_ok (Z.of_N g) = true) by (unfold int_ok, i64_min, i64_max; lia).
+  unfold sp, nl. rewrite <- !app_assoc. cbn [app].
+  eapply Lexes_tok; [apply lex1_int; [exact In_ | apply good_rest_sp] | reflexivity | apply app_longer, dec_z_nonempty |].
+  apply Lexes_ws; [reflexivity|].
+  eapply Lexes_tok; [apply lex1_int; [exact Ig | apply good_rest_sp] | reflexivity | apply app_longer, dec_z_nonempty |].
+  change (s " obj") with [32; 111; 98; 106]. cbn [app].
+  eapply Lexes_tok with (r := 10 :: ser_incr v ++ endobj_tail t); [reflexivity | reflexivity | cbn [length]; lia |].
+  apply Lexes_ws; [reflexivity|].
+  eapply Lexes_app; [apply incr_lexes; [exact W | apply good_rest_endobj_tail]|].
+  eapply Lexes_tok; [apply lex1_endobj_tail | reflexivity | unfold endobj_tail, w_endobj; cbn [length app]; lia | apply Lexes_nil].
+Qed.
+
+(** A reader of one indirect object over C09's lexer and parser, shaped after
+    parser/reader.rs [parse_indirect-object at offset]: integer, integer, keyword [obj], one value
+    ([parse_tok], C09), keyword [endobj].  This definition is NOT tied to the Rust code by a
+    correspondence channel (the lexer and the value parser inside it are: C09); it only packages the
+    token-level facts above into one equation. *)
+Definition read_indirect (bs : bytes) : option (Z * Z * pobj) :=
+  match lex_all (S (length bs)) bs with
+  | TInt n :: TInt g :: TKw w :: ts =>
+      if bytes_eqb w w_obj then
+        match parse_toks (4 * length ts + 4) ts with
+        | Some (v, TKw w' :: _) => if bytes_eqb w' w_endobj then Some (n, g, v) else None
+        | _ => None
+        end
+      else None
+  | _ => None
+  end.
+
+Theorem obj_bytes_read_indirect : forall o v t,
+  fst (fst o) <= 4294967295 -> snd (fst o) <= 65535 -> wf_incr v = true ->
+  read_indirect (header_of o ++ ser_incr v ++ endobj_tail t) =
+  Some (Z.of_N (fst (fst o)), Z.of_N (snd (fst o)), norm v).
+Proof.
+  intros o v t Hn Hg W. unfold read_indirect.
+  pose proof (obj_bytes_lexes o v t Hn Hg W) as L.
+  pose proof (Lexes_len _ _ _ L) as Len.
+  rewrite (Lexes_lex_all _ _ _ L) by lia.
+  cbn [app]. change (bytes_eqb w_obj w_obj) with true. cbv iota.
+  rewrite <- app_assoc. cbn [app].
+  rewrite parse_toks_then_kw; [| apply wf_incr_wf; exact W | reflexivity |].
+  - change (bytes_eqb w_endobj w_endobj) with true. reflexivity.
+  - rewrite app_length. lia.
+Qed.
+
+(** the composition with the layout: reading one indirect object at the recorded offset *)
+Theorem rewritten_object_read_indirect_lemma : forall base u pre o post v,
+  sort (u_objs u) = pre ++ o :: post -> snd o = ser_incr v -> wf_incr v = true ->
+  fst (fst o) <= 4294967295 -> snd (fst o) <= 65535 ->
+  let off := len (start_of base) + len (body_bytes pre) in
+  In (fst (fst o), CE off (snd (fst o)) true) (flatten (group (entries_of (changed base u))))
+  /\ read_indirect (skipn (N.to_nat off) (finish base u)) =
+     Some (Z.of_N (fst (fst o)), Z.of_N (snd (fst o)), norm v).
+Proof.
+  intros base u pre o post v E B W Hn Hg off.
+  destruct (rewritten_object_parses_back_at base u pre o post v E B W) as [I [t [ts' [K _]]]].
+  split; [exact I|]. fold off in K. rewrite K. apply obj_bytes_read_indirect; assumption.
+Qed.
+
+Theorem filler_object_read_indirect_lemma : forall base f pre o post v,
+  ff_objs f = pre ++ o :: post -> snd o = ser_incr v -> wf_incr v = true ->
+  fst (fst o) <= 4294967295 -> snd (fst o) <= 65535 ->
+  let off := len base + len (body_bytes pre) in
+  In (fst (fst o), CE off (snd (fst o)) true) (flatten (group (entries_of (fxref base f))))
+  /\ read_indirect (skipn (N.to_nat off) (filler_out base f)) =
+     Some (Z.of_N (fst (fst o)), Z.of_N (snd (fst o)), norm v).
+Proof.
+  intros base f pre o post v E B W Hn Hg off.
+  destruct (filler_object_parses_back_lemma base f pre o post v E B W) as [I [t [ts' [K _]]]].
+  split; [exact I|]. fold off in K. rewrite K. apply obj_bytes_read_indirect; assumption.
+Qed.
+
 (** * Non-vacuity: a base without final EOL; two replacements registered in descending order, the
     second body a nested dictionary with a non-ASCII name (C3 A9 SP / #), a string with parentheses
     and a backslash, a reference, nested dictionaries ([incr_sample] of C09/IncrFull.v) *)
@@ -279,5 +406,6 @@ Example pb_concl :
   /\ is_prefixb (s "3 0 obj" ++ nl ++ ser_incr incr_sample ++ nl ++ s "endobj" ++ nl ++ s "7 0 obj" ++ nl) (skipn 19 out) = true
   /\ option_map (fun r => (fst r, hd TEof (snd r))) (read_value (skipn (19 + 8) out)) = Some (norm incr_sample, TKw w_endobj)
   /\ parse (ser_incr incr_sample ++ endobj_tail (skipn (19 + 8 + length (ser_incr incr_sample) + 8) out)) = Some (norm incr_sample)
+  /\ read_indirect (skipn 19 out) = Some (3%Z, 0%Z, norm incr_sample)
   /\ ascii_names incr_sample = false.
 Proof. vm_compute. repeat split; auto. Qed.
